@@ -103,6 +103,13 @@ def coupled_constructs(ctx):
             continue
         b2.append(ln)
     out.append(("asp-pair-coupled-in-altB-only", C.join(a + [C.TER] + b2 + [C.TER]), []))
+    # two adjacent copies of one ligand in one chain: distinct groups with the same printed label that interact
+    ftj = [ln for ln in C.body(C.test_pdb_text("1FTJ-Chain-A")) if C.is_atom(ln) or ln.startswith("TER")]
+    lig = [ln for ln in ftj if ln.startswith("HETATM") and ln[17:20] == "GLU"]
+    tt = (C.place_copy(ftj, lig, tmin=4000, tmax=14000, clearance=2300) if lig else None)
+    if tt:
+        copy = [C.set_resid(ln, num=C.resid(ln)[1] + 100) for ln in C.translate(lig, *tt)]
+        out.append(("1FTJ+second-GLU-ligand-copy", C.join(ftj + copy), []))
     return out
 
 
@@ -117,7 +124,7 @@ def run(ctx):
     r = tlc.run("MC_Coupling", "Gen_Coupling.cfg" if ctx.thorough() else "Gen_Coupling_q.cfg", workers=1, timeout=1800)
     ctx.add_tlc(r, "swap configuration generator")
     bad = {}
-    stride = 1 if ctx.thorough() else 3
+    stride = 1 if ctx.thorough() else 7
     from propka.parameters import Parameters
     NCCG.parameters = NCCG.parameters or Parameters()
     for n, c in enumerate(r.printed):
@@ -142,6 +149,21 @@ def run(ctx):
             bad.setdefault("swap:not-undone", (c, f"after two swaps {two}, originally {orig}; pKa {[g.pka_value for g in gs]} vs {pk0}"))
         if one != spec_lists(c["after1"]) or two != spec_lists(c["after2"]):
             bad.setdefault("swap:model-drift", (c, f"after one swap {one}, model {spec_lists(c['after1'])}"))
+        # the whole probe (is_coupled_protonation_state_probability with every early return disabled) must leave
+        # every determinant multiset and every pKa as it found them - also for twin labels
+        ctx.count()
+        gp = build(c)
+        for g in gp:
+            g.intrinsic_pka = g.model_pka
+        try:
+            NCCG.is_coupled_protonation_state_probability(gp[0], gp[1], lambda ph, reference: 0.0, return_on_fail=False)
+            after = lists(gp)
+        except Exception as ex:  # noqa
+            bad.setdefault("probe:exception", (c, repr(ex)))
+            continue
+        if bags(after) != bags(orig) or any(abs(g.pka_value - p) > 1e-9 for g, p in zip(gp, pk0)):
+            key = "probe:not-neutral" + (":twin-labels" if c["lab"][0] == c["lab"][1] else "")
+            bad.setdefault(key, (c, f"after the probe {after}, originally {orig}; pKa {[g.pka_value for g in gp]} vs {pk0}"))
         if mutual and len(ctx.samples) < 2:
             ctx.sample({"labels": c["lab"], "lists": orig, "after_one_swap": one})
     ctx.traces += 1
